@@ -222,6 +222,36 @@ class Sh:
                 self.res["samples"].append({"expr": expr, "expected": show(want), "eval": rep[1][:30], "loop": [d["R%d" % i]["value"] for i in (1, 2, 3)]})
         return Unit(ops, check, what)
 
+    def unit_condition(self, X):
+        """the value itself as condition of if / while (manual: "Both false and null test false"), also when the null only arrives at run time
+        through a variable assigned in the loop or through a function result"""
+        xt, xv, xp = X
+        progs = [("if", "qi = 0; if %s then qi = 1; else qi = 2; end if;" % xt, "QI", "i:1" if xv is True else "i:2"),
+                 ("while-variable", "qw = 0; go = true; while go loop qw = qw + 1; if qw >= 3 then break; end if; go = %s; end loop;" % xt, "QW", "i:3" if xv is True else "i:1"),
+                 ("while-function", "function cnd(k) return boolean is begin if k < 2 then return true; end if; return %s; end; "
+                                    "qf = 0; while cnd(qf) loop qf = qf + 1; if qf >= 4 then break; end if; end loop;" % xt, "QF", "i:4" if xv is True else "i:2"),
+                 ("elsif", "qe = 0; if false then qe = 9; elsif %s then qe = 1; else qe = 2; end if;" % xt, "QE", "i:1" if xv is True else "i:2")]
+        ops = []
+        for i, (form, prog, var, exp) in enumerate(progs):
+            ops += ["parse A C%d %s" % (i, hx(prog)), "run A C%d 1000" % i, "get A %s" % hx(var)]
+        pre = setup_ops()
+        cls = vclass(xv, xp)
+        def check(rep, self=self):
+            self.res["evaluations"] += 1
+            full = pre + ops
+            for i, (form, prog, var, exp) in enumerate(progs):
+                pr, rn, gv = rep[3 * i], rep[3 * i + 1], rep[3 * i + 2]
+                if not pr.startswith("ok"):
+                    bump(self.res, "condition_form_rejected_at_compile_time"); continue
+                if not rn.startswith("ok"):
+                    self.viol("condition", cls, "-", form, "`%s` [%s] as %s condition: the program failed: %s" % (xt, xp, form, rn[:120]), full); return
+                got = rfields(gv)[1][0] if gv.startswith("val") else gv[:40]
+                if got != exp:
+                    self.viol("condition", cls, "-", form, "`%s` [%s] (%s) as %s condition: %s = %s, expected %s" % (xt, xp, show(xv), form, var, got, exp), full); return
+                bump(self.res, "condition_observations")
+            self.res["nontrivial"].add(case_hash(["cond", xt, self.desc["mode"]]))
+        return Unit(ops, check, "condition %s" % xt)
+
     def run(self, units):
         pre = setup_ops()
         def on_crash(u, r):
@@ -244,6 +274,8 @@ def all_units(sh):
     for op in UNARY:
         for X in BOOLS:
             units.append(sh.unit_unary(op, X))
+    for X in BOOLS:
+        units.append(sh.unit_condition(X))
     for typ, d in REL_OPERANDS.items():
         vals = [(t, p, False) for t, p in d["vals"]]
         nulls = [(t, p, True) for t, p in d["nulls"]] + [(t, p, True) for t, p in UNTYPED_NULLS]
